@@ -898,6 +898,11 @@ impl MerkleTree {
                     instructions.push(instruction);
                 }
                 Either::Right(node) => {
+                    if !instructions.is_empty() {
+                        // The size of an earlier root is not known yet, can't tell if the
+                        // bytes fall into this root: only collect what needs to be read.
+                        continue;
+                    }
                     if bytes == node.length {
                         return Ok(Either::Right(root));
                     }
@@ -1010,6 +1015,11 @@ impl MerkleTree {
                     }
                 }
             }
+        }
+        if !instructions.is_empty() {
+            // The offset of the root is not known yet, the relative seek position can't
+            // be determined before the requested nodes have been read.
+            return Ok(Either::Left(instructions));
         }
         let instructions_or_result = self.seek_trusted_tree(root, bytes, nodes)?;
         match instructions_or_result {
